@@ -177,10 +177,13 @@ def choose_call_shape(params, names, must_pass):
     p = cur()
     first_is_self = names[0] in ("self", "cls")
     lo = 1 if first_is_self else 0
-    normal = [i for i, src in enumerate(params) if not src.startswith("*")]
+    kwonly_from = params.index("*") if "*" in params else len(params)  # parameters after a bare `*` are keyword-only
+    normal = [i for i, src in enumerate(params) if not src.startswith("*") and i < kwonly_from]
     npos = lo + p.choose([(str(i), None) for i in range(0, len(normal) - lo + 1)], "n_positional")
     passed = {}
     for i, (src, n) in enumerate(zip(params, names)):
+        if src == "*":
+            continue
         if src.startswith("**"):
             if p.choose([("0", None), ("1", None)], "extra_keywords") == 1:
                 passed[n] = "starkw"
@@ -225,7 +228,8 @@ def bound_equals(bound, expected):
 # check_input
 # ---------------------------------------------------------------------------------------
 
-INPUT_SHAPES = ["f(a)", "f(a,b)", "f(a,b=_D)", "f(a,b,c=_D)", "m(self,a)", "m(self,a,b)", "m(self,a,b=_D)", "m(cls,a,b=_D)", "f(a,*rest)", "f(a,b=_D,**kw)"]
+INPUT_SHAPES = ["f(a)", "f(a,b)", "f(a,b=_D)", "f(a,b,c=_D)", "m(self,a)", "m(self,a,b)", "m(self,a,b=_D)", "m(cls,a,b=_D)", "f(a,*rest)", "f(a,b=_D,**kw)",
+                "f(*,a)", "f(*,a,b=_D)", "f(a,*,b=_D)"]  # keyword-only parameters (designated by default, by position number or by name)
 
 
 class CheckInput(Contract):
